@@ -40,7 +40,7 @@ def effect_trace(P, b):
                 base_ok = bool(re.fullmatch(r"(Option::unwrap|Option::expect)\(Vec::pop\(self\.cache\)(, '[^']*')?\)\.entries", a[0]))
                 effs.append((pos[bb], ("set", cls if base_ok else "?base:" + a[0][:40], val, bb in cfg.cyclic_blocks())))
             elif any(isinstance(e, dict) and e.get("f") == "update_output" for e in lhs["p"]):
-                effs.append((pos[bb], ("update_output", canon(sl.rvalue(st["rv"], bb, i)))))
+                effs.append((pos[bb], ("update_output", canon(sl.rvalue(st["rv"], bb, i)), bb in cfg.cyclic_blocks())))
         t = blk["term"]
         if t["t"] == "call":
             nm = callee_name(t)[0]
@@ -67,6 +67,12 @@ def run(chk, ctx):
     chk.trusted = ["std: Vec push/pop is LIFO; enumerate().rev().find_map returns the right-most match"]
     for lem in ("RESIDUAL", "STK"):
         L.need(lem)
+    # exact gating: Some(i) iff entry == X / C and the column is an input (scan over the row's entries)
+    for fn, variant in ((TD + "expand_x", "X"), (TD + "expand_c", "C")):
+        fb = P.body(fn)
+        for c in (P.f.closures_of(fn) if fb is not None else []):
+            good, got = panrules.selector_ok(P, c, variant)
+            chk.require(good, "GUARD", "GUARD:%s:selector" % fn.split("::")[-1], "Some(i) iff entry == %s && entry_is_input(i)" % variant, "%s selects entries by %s" % (fn.split("::")[-1], got))
     ex = P.body(TD + "expand_x")
     ec = P.body(TD + "expand_c")
     gr = P.body(TD + "get_row")
@@ -81,7 +87,7 @@ def run(chk, ctx):
     tc = effect_trace(P, ec)
     want_c = [("pop",), ("push", "move"),
               ("set", "c", "DataEntry::Number{0: 0}", True), ("push", "clone"),
-              ("set", "expected", "DataEntry::X{}", True), ("update_output", "0"),
+              ("set", "expected", "DataEntry::X{}", True), ("update_output", "0", False),
               ("set", "c", "DataEntry::Number{0: 1}", True), ("push", "clone"),
               ("set", "c", "DataEntry::Number{0: 0}", True), ("push", "move")]
     chk.require(tc == want_c, "TRACE", "TRACE:expand_c:clock-triple", "pop; [no C: push back] | C:=0 push(clone); expected:=X, update_output:=false, C:=1 push(clone); C:=0 push", "expand_c effect trace is %s" % tc, "%s:%d" % (ec.file, ec.line))
